@@ -206,3 +206,18 @@ proof fn lemma_seen32_step(s: Seq<u32>, n: int, x: u32)
 }
 
 } // verus!
+verus! {
+
+/// the table built from the first n transitions: (q, i) present iff one of them has that source
+/// and symbol; the value is the target of the last such one
+spec fn table_of(ts: Seq<Transition>, n: int, tab: Map<u32, Map<InpId, u32>>) -> bool {
+    (forall|q: u32, i: InpId| #[trigger] cell_in(tab, q, i) ==> exists|m: int| 0 <= m < n && m < ts.len() && #[trigger] tr_is(ts[m], q, i, tab[q][i]))
+    && (forall|m: int| 0 <= m < n && m < ts.len() ==> cell_in(tab, (#[trigger] ts[m]).from, ts[m].input))
+    && (forall|q: u32| #[trigger] tab.contains_key(q) ==> exists|m: int| 0 <= m < n && m < ts.len() && (#[trigger] ts[m]).from == q)
+}
+
+spec fn cell_in(tab: Map<u32, Map<InpId, u32>>, q: u32, i: InpId) -> bool { tab.contains_key(q) && tab[q].contains_key(i) }
+
+spec fn tr_is(t: Transition, q: u32, i: InpId, to: u32) -> bool { t.from == q && t.input == i && t.to == to }
+
+} // verus!
